@@ -153,6 +153,9 @@ class SymEx:
         if fn.node.args.vararg:
             env[fn.node.args.vararg.arg] = ('var', fn.node.args.vararg.arg)
         outer_env = st.env
+        if getattr(fn, 'parent', None) is not None and self.frames and self.frames[-1] is fn.parent:
+            # a nested function sees the variables of the function that defines it
+            env = dict({k: v for k, v in outer_env.items() if k not in env}, **env)
         st.env = env
         self.frames.append(fn)
         self.dyn[len(self.frames)] = dyn
@@ -231,6 +234,10 @@ class SymEx:
         if isinstance(s, ast.Expr):
             if isinstance(s.value, ast.Constant):
                 return [(st, None)]
+            if isinstance(s.value, ast.YieldFrom) and isinstance(s.value.value, ast.Call):
+                tg, how, layer = self.M.resolve_any(self.fn, s.value.value, self.tenv())
+                if len(tg) == 1 and _is_generator(tg[0]):
+                    return [(x, None) for x, _ in self.ev(s.value, st)]
             if isinstance(s.value, (ast.Yield, ast.YieldFrom)):
                 out = []
                 for x, v in self.ev(s.value.value, st) if s.value.value is not None else [(st, NONE)]:
@@ -451,8 +458,38 @@ class SymEx:
         return out
 
     def loop(self, s, st):
-        lid = next(self.uid)
         is_for = isinstance(s, ast.For)
+        if is_for and isinstance(s.iter, ast.Call) and len(s.body) == 1 and isinstance(s.body[0], ast.Expr) and isinstance(s.body[0].value, ast.Yield) \
+                and isinstance(s.target, ast.Name) and isinstance(s.body[0].value.value, ast.Name) and s.body[0].value.value.id == s.target.id and not s.orelse:
+            # for v in g(...): yield v   ==   yield from g(...)
+            tg, how, layer = self.M.resolve_any(self.fn, s.iter, self.tenv())
+            if len(tg) == 1 and _is_generator(tg[0]):
+                return [(x, None) for x, v in self.ev(ast.copy_location(ast.YieldFrom(value=s.iter), s), st)]
+        if is_for and not self.suppress:
+            heads = self.ev(s.iter, st)
+            if len(heads) == 1 and heads[0][0].exc is None and heads[0][1][0] in ('tuple', 'list') and 1 <= len(heads[0][1][1]) <= 8 \
+                    and not any(z[0] == 'starred' for z in heads[0][1][1]):
+                # a loop over a literal table runs its body once per row, in order: unrolled exactly (continue/break/return/raise included)
+                live, done = [heads[0][0]], []
+                for item in heads[0][1][1]:
+                    nxt = []
+                    for s0 in live:
+                        b0 = self.assign(s.target, item, s0, s, silent=True)
+                        for y, oc in self.block(s.body, b0):
+                            if y.exc is not None or (oc is not None and oc[0] == 'return'):
+                                done.append((y, oc))
+                            elif oc is not None and oc[0] == 'break':
+                                done.append((y, ('broke',)))
+                            else:
+                                nxt.append(y)
+                    live = nxt
+                out = []
+                for y in live:
+                    out.extend(self.block(s.orelse, y) if s.orelse else [(y, None)])
+                for y, oc in done:
+                    out.append((y, None if oc == ('broke',) else oc))
+                return out
+        lid = next(self.uid)
         out = []
         heads = self.ev(s.iter, st) if is_for else [(st, None)]
         for x, it in heads:
@@ -1065,6 +1102,17 @@ class SymEx:
             return out
         if isinstance(e, ast.FormattedValue):
             return self.ev(e.value, st)
+        if isinstance(e, ast.YieldFrom) and isinstance(e.value, ast.Call):
+            # `yield from g(...)` where g is a generator function of the package: g's yields are this function's yields, in place
+            tg, how, layer = self.M.resolve_any(self.fn, e.value, self.tenv())
+            if len(tg) == 1 and _is_generator(tg[0]) and not any(fr.qn == tg[0].qn for fr in self.frames) and not self.suppress:
+                saved = self.policy
+                self.policy = lambda a, b, d, _t=tg[0], _p=saved: True if b is _t else _p(a, b, d)
+                try:
+                    res = self.call(e.value, st)
+                finally:
+                    self.policy = saved
+                return [(x, NONE) for x, v in res]
         if isinstance(e, (ast.Yield, ast.YieldFrom)):
             out = []
             for x, v in (self.ev(e.value, st) if e.value is not None else [(st, NONE)]):
@@ -1108,6 +1156,9 @@ class SymEx:
                 return ('ite', x[1], l, r)
         if o in ('is', 'is not', '==', '!=') and NONE in (a, b):
             other = b if a == NONE else a
+            if other[0] in ('lambda', 'fn', 'nt', 'dict', 'list', 'tuple', 'set', 'str', 'num', 'new', 'comp', 'localfn', 'fmt') or \
+                    (other[0] == 'const' and other[1] in ('True', 'False')):
+                return FALSE if o in ('is', '==') else TRUE          # a function, a literal or a fresh object is not None
             if other[0] == 'call' and other[1] == ('ext', 'GET') and len(other[2]) == 2:
                 t = ('cmp', 'in', other[2][1], other[2][0])
                 return mk_not(t) if o in ('is', '==') else t
@@ -1117,6 +1168,9 @@ class SymEx:
                 b = b[2][0]
             if b[0] in ('tuple', 'list', 'set') and a[0] in ('str', 'num') and all(z[0] in ('str', 'num') for z in b[1]):
                 v = a in b[1]
+                return TRUE if v == (o == 'in') else FALSE
+            if b[0] == 'dict' and a[0] in ('str', 'num') and _const_keyed(b):
+                v = any(kk == a for kk, _ in b[1])
                 return TRUE if v == (o == 'in') else FALSE
             t = ('cmp', 'in', a, b)
             return t if o == 'in' else mk_not(t)
@@ -1562,13 +1616,13 @@ class SymEx:
                         return [(st, vv)]
                 if _const_keyed(recv):
                     return [(st, args[1] if len(args) == 2 else NONE)]
-            if f.attr == 'get' and len(args) == 1 and not kws and not _is_queue(self.M, fn, f.value, self.tenv()):
+            if f.attr == 'get' and len(args) == 1 and not kws and not _is_queue(self.M, fn, f.value, self.tenv(), recv):
                 # d.get(k): the element when present, None otherwise
                 return [(st, ('call', ('ext', 'GET'), (recv, args[0]), ()))]
             res = ('call', ('meth', f.attr), (recv,) + tuple(args), kws)
             x = st.ev(Ev('call', callee=['meth:' + f.attr], args=dict(enumerate(args)), site=site, fn=fn.qn, how=how, layer=0,
                          result=res, node=e, recv=recv, kwargs=dict(kwargs)))
-            if f.attr in MUTATORS or (f.attr == 'get' and _is_queue(self.M, fn, f.value, self.tenv())):
+            if f.attr in MUTATORS or (f.attr == 'get' and _is_queue(self.M, fn, f.value, self.tenv(), recv)):
                 local = isinstance(f.value, ast.Name) and f.value.id in x.env and _is_local_container(x.env[f.value.id])
                 x = x.ev(Ev('write', loc=recv if not local else ('var', f.value.id), value=res, how='mut:' + f.attr, site=site, fn=fn.qn,
                             old=None, delta=None, local=local))
@@ -1736,6 +1790,19 @@ def make_nt(tname, values):
 
 
 NT_DEFAULTS = {}    # named-tuple type name -> {field: default term}
+
+
+def _is_generator(fn):
+    def walk(n):
+        for ch in ast.iter_child_nodes(n):
+            if isinstance(ch, (ast.FunctionDef, ast.Lambda, ast.ClassDef)):
+                continue
+            if isinstance(ch, (ast.Yield, ast.YieldFrom)):
+                return True
+            if walk(ch):
+                return True
+        return False
+    return walk(fn.node)
 
 
 def _dict_of_zip(z, base):
@@ -1933,9 +2000,16 @@ def _mentions(t, obj):
     return any(s == obj for s in T.subterms(t)) if isinstance(t, tuple) else False
 
 
-def _is_queue(M, fn, recv_node, env):
+def _is_queue(M, fn, recv_node, env, recv=None):
     ts = M.expr_types(fn, recv_node, env)
-    return any('queue.' in t for t in ts)
+    if any('queue.' in t for t in ts):
+        return True
+    # the symbolic value knows more than the local types when the queue was handed over as an argument or aliased in a local:
+    # an element of a field that some class fills with queue objects
+    if recv is not None and recv[0] == 'sub' and recv[1][0] == 'attr':
+        fld = recv[1][2]
+        return any('queue.' in t for c in M.classes.values() for t in M.elem_of(c, fld))
+    return False
 
 
 def _as_load(t):
@@ -2077,6 +2151,8 @@ class Valuation:
                 if y[0] == 'str' and fmt(x) in self.strs:
                     return self.strs[fmt(x)] == y[1]
         if t[0] == 'cmp' and t[1] == 'in' and self.strs and fmt(t[2]) in self.strs:
+            if t[3][0] == 'dict' and all(k is not None and k[0] in ('str', 'num', 'const') for k, _ in t[3][1]):
+                return any(k == ('str', self.strs[fmt(t[2])]) for k, _ in t[3][1])
             try:
                 return self.strs[fmt(t[2])] in T.const_eval(t[3])
             except Exception:
